@@ -33,7 +33,11 @@ def run(tier, seed):
     g = tlc.run("Utf8Gen", "CONSTANT Sim = FALSE\nINIT GInit\nNEXT GNext\nINVARIANT Emit\nCHECK_DEADLOCK FALSE\n", workers=NCPU, timeout=900, heap="16g")
     gs = tlc.run("Utf8Gen", "CONSTANT Sim = TRUE\nINIT GInit\nNEXT GNext\nINVARIANT Emit\nCHECK_DEADLOCK FALSE\n", workers=4, simulate=(200 if tier == "quick" else 3000), depth=8, seed=seed, timeout=600)
     cases = [p for p in g.printed if "pre" in p]
-    if tier == "quick": cases = rnd.sample(cases, 5000)
+    if tier == "quick":
+        allc = cases; cases = rnd.sample(cases, 5000)
+        # the metadata-for-packages and outline-import templates (the last two) are replayed at every position
+        have = {(c["t"], c["p"], c["cp"], c["nl"]) for c in cases}
+        cases += [c for c in allc if c["t"] >= 38 and c["nl"] and (c["t"], c["p"], c["cp"], c["nl"]) not in have]
     cases = cases + [p for p in gs.printed if "pre" in p]
     # long runs of multi-byte characters: headings, link titles and labels of 450-620 bytes travel through formatted writes (buffers of 256 / 512 / 1024 bytes)
     anycp = sorted(cps)[0]
@@ -52,8 +56,12 @@ def run(tier, seed):
             s.append(line("src", "u%d" % j, sx(body(c))))
             for f in ((fm[k % 6], fm[(k + 3) % 6]) if tier == "quick" else fm):
                 x = (docs.STD if (k + len(f)) % 2 else (E["NOTES"] | E["CRITIC"])) | (E["COMPLETE"] if k % 5 == 0 else 0)
+                if body(c).startswith(b"<opml"): x |= E["PARSE_OPML"]          # (the text is an outline: imported first, then rendered)
                 s.append(line("conv", "s_conv", "u%d" % j, docs.FMT[f], x, k % 7))
             if body(c).startswith((b"Title:", b"Key:")):
+                # the packaged formats quote metadata in members of their own (package document, meta.xml, info.json, map data)
+                for f in ("epub", "odt", "itmz", "bundlezip"):
+                    s.append(line("conv", "s_data", "u%d" % j, docs.FMT[f], docs.STD, 0))
                 # the metadata API rewrites the source: replace the value of the last key, of the first key, add a key -- the rewritten text must stay well formed
                 for fam, key, val in (("s", "Author", "Bj\u00f6rk"), ("d", "other key", "x"), ("s", "Title", "\u4e2d"), ("d", "New", "caf\u00e9")):
                     s.append(line("meta", fam, "u%d" % j, "upd", sx(key), sx(val.encode("utf-8")), "v%d" % j))
@@ -71,6 +79,10 @@ def run(tier, seed):
             if ev.get("e") != "conv": continue
             k = si * per + int(ev["src"][1:]); c = cases[k]
             out = project.lat1(ev.get("out")) if ev.get("out") is not None else b""
+            if docs.FMTNAME.get(ev["fmt"]) in ("epub", "odt", "itmz", "bundlezip"):
+                # a package: every text member must be well-formed UTF-8 (member names, too)
+                okz, mem, errz = project.zip_members(out)
+                out = b"\x00".join([m["name"].encode("utf-8", "surrogateescape") + b"\x00" + m["data"] for m in mem if m["name"].endswith((".xml", ".xhtml", ".opf", ".json", ".markdown", ".html", ".ncx", "mimetype"))]) if okz else b"\xff"
             src = body(c)
             trace.append(dict(e="out", null=ev["null"], runs=runs_of(out), srcruns=runs_of(src), case=k, fmt=ev["fmt"], ext=ev["ext"]))
             nconv += 1
